@@ -1,10 +1,53 @@
 """C12 — quantiles, percentile ranks, ranks and partitions are true order statistics. Engine K."""
 import kani_engine
 
-RULE = "tbd"
-MANIFEST = {"engine": "K", "technique": "tbd", "design_ref": "DESIGN.md 3/C12", "level_text": "tbd", "level_note": "tbd"}
+RULE = ("one Kani harness per (function family, element class, length N); the null mask, all element values, the q index "
+        "(grid of 7), the interpolation method, pct and the percentile method are kani::any(); k / sort / rev of the "
+        "partitions are literals per call (a symbolic flag makes the boxed iterator's type symbolic). The oracle is the "
+        "rank-sorted valid keys computed by plain loops in the harness. A harness is non-trivial when its kani::cover! "
+        "witnesses (ties, nulls next to valid elements, fractional position, mirrored q > 1/2 branch, pads, genuine "
+        "selection) are SATISFIED")
+
+MANIFEST = {
+    "engine": "K",
+    "technique": "bounded model checking (Kani/CBMC, SAT) of vquantile/vmedian/vpercentile_of/vrank/vpartition/varg_partition "
+                 "against order statistics of the valid elements computed in the harness",
+    "design_ref": "DESIGN.md 3/C12",
+    "level_text": "CBMC decides, for every null mask and all element values at each concrete length N, that vquantile (4 methods, "
+                  "q on the grid {0,1/4,1/3,1/2,2/3,3/4,1} where (n-1)q is integral or >= 1/4 from an integer) and vmedian return the "
+                  "element(s) at the fractional index of the sorted valid elements (Lower/Higher/MidPoint bit-exact, Linear within "
+                  "1e-9 of lo+(hi-lo)*frac) and null iff nothing is valid; vpercentile_of equals the rank/weak/strict proportions; "
+                  "vrank gives 2*rank == 2*before+equal+1 (pct: divided by the valid count) and null to nulls; vpartition / "
+                  "varg_partition yield k+1 entries whose non-pad part is the multiset of the min(k+1, n) extreme valid elements, "
+                  "in order if sorted, pads (null / -1) only when fewer exist, indices in range, distinct, never of a null",
+    "level_note": "trusted: Kani's MIR->goto translation, CBMC, CaDiCaL/MiniSat; std::fmt::format stubbed; results are mem::forget-ed "
+                  "instead of dropped (drop glue of TError / Box<dyn TrustedLen> is outside the claim). Bounds: N <= 3 quick (element "
+                  "classes f64 from -2..=2 with NaN mask, Option<i32> from -2..=2, Option<i32> unconstrained), N <= 4 (percentile 5) "
+                  "thorough; quick checks a diagonal of the (k, sort, rev, element class) matrix of the partitions at N = 3, thorough "
+                  "the whole matrix for k in 0..=N+1",
+}
 
 
 def check(v, tier, opts):
+    v.functions.update(["tea_agg::VecAggValidExt::vquantile (Linear, Lower, Higher, MidPoint)", "tea_agg::VecAggValidExt::vmedian",
+                        "tea_agg::AggValidExt::vpercentile_of (Rank, Weak, Strict)", "tea_map::MapValidVec::vrank (pct x rev)",
+                        "tea_map::MapValidVec::vpartition", "tea_map::MapValidVec::varg_partition",
+                        "tea_dtype::IsNone::{sort_cmp, sort_cmp_rev} for f64 / Option<i32>",
+                        "core::slice::{select_nth_unstable_by, sort_unstable_by} as compiled"])
+    if tier == "quick":
+        v.bounds.append("quick: vquantile N in {0,1,3} (f64 and Option<i32> keys -2..=2; all 7 q, 4 methods; the n == 1 slice at N = 3 in its own "
+                        "harness), vmedian N in {0,3}; vpercentile_of N <= 3 (f64 small, Option<i32> unconstrained, 3 methods); vrank N in {0,1} "
+                        "(f64), 2 (Option<i32>, pct x rev), 3 (f64 ascending, Option<i32> descending, pct symbolic); vpartition (Option<i32>) / "
+                        "varg_partition (f64): N = 3 with (k,sort,rev) in {(1,S,asc),(0,S,desc),(0,U,asc),(1,U,desc)}, N <= 1 with k <= 1, "
+                        "sorted vpartition with k+1 > len at N <= 2")
+    else:
+        v.bounds.append("thorough: all quick harnesses plus N = 2 and N = 4 for every family, Option<i32> unconstrained for Lower/Higher "
+                        "quantiles, ranks and selections, vpercentile_of N <= 5, the complete (k in 0..=N+1, sort, rev) matrix of both "
+                        "partitions for f64 and Option<i32> at N <= 3 and k <= 5 at N = 4")
+    v.bounds.append("q grid: {0, 1/4, 1/3, 1/2, 2/3, 3/4, 1}; (n, q) pairs whose exact product (n-1)q is an integer that involves thirds "
+                    "(n = 4 with q = 1/3, 2/3) are excluded per DESIGN 5.5 (either neighbour acceptable)")
+    v.outside.append("lengths above the bound; q off the grid; element types other than f64 / Option<i32>; Some(NaN) (DESIGN 5.4); "
+                     "destructors of the returned values")
+    v.assumptions.append("canonical nulls only (NaN for f64, None for Option<i32>)")
     kani_engine.decide(v, "C12", tier, opts)
     return v.finish(RULE)
